@@ -92,7 +92,7 @@ fn run(ctx: &Ctx) {
     ctx.run_enum("golden", golden, true, "every row of the pinned golden copy x 10 columns", (0..ngold as u32).map(|i| vec![(i >> 8) as u8, i as u8]));
     ctx.run_enum("ids", ids, true, "all 65536 ids x 4 lookup routes", (0..=65535u32).map(|i| vec![(i >> 8) as u8, i as u8]));
     ctx.run_enum("derived", derived, true, "derived sizes and name-token agreement for every row", (0..nfile as u32).map(|i| vec![(i >> 8) as u8, i as u8]));
-    ctx.run_tape("names", names, ctx.pick(20_000, 400_000), 64);
+    ctx.run_tape("names", names, ctx.pick(200_000, 400_000), 64);
 }
 
 fn compare_row(r: &Row, what: &str) -> R {
